@@ -713,6 +713,11 @@ def fam_hexital(rng, pid, count, twins=("standalone",)):
         base_tf = rng.choice([None, None, None, ladder[0]])
         cfgs = _uniq([rand_cfg(rng, rng.choice(ALL_KINDS), tf=rng.choice([None] + ladder))
                       for _ in range(nmem)])
+        if pid == "C08" and rng.random() < 0.25:
+            # a pattern / movement wrapper as a member, also rebuilt from its own settings
+            am = amorph_cfg(rng)
+            am.timeframe = rng.choice([None] + ladder)
+            cfgs = _uniq(cfgs + [am])
         if len(cfgs) >= 2 and rng.random() < 0.4:
             shared = rng.choice(ladder)            # two members on one timeframe = one shared manager
             cfgs[0].timeframe = cfgs[1].timeframe = shared
